@@ -105,6 +105,27 @@ class SimFuture:
         self._finish(exception=e)
 
 
+class _WorkerDied(BaseException):
+    """The simulated worker process died while fetching its work item (un-picklable in that process)."""
+
+
+class _ForkAwareUnpickler(pickle.Unpickler):
+    """A worker process knows the classes that existed when it was forked - not the ones defined afterwards."""
+
+    def __init__(self, file, sim, ctx):
+        super().__init__(file)
+        self._sim, self._ctx = sim, ctx
+
+    def find_class(self, module, name):
+        if module == "workload.tasks":
+            from workload import tasks as _t
+            born = _t.CLASS_BORN.get(name)
+            if born is not None and born[0] == self._sim.serial and born[1] > self._ctx.fork_event:
+                raise AttributeError(f"Can't get attribute {name!r} on <module {module!r}> (defined after this worker "
+                                     f"process was forked)")
+        return super().find_class(module, name)
+
+
 class _WorkItem:
     __slots__ = ("future", "fn", "args", "kwargs", "blob")
 
@@ -227,17 +248,21 @@ class _SimExecutorBase:
                 sim.count("tasks_overlapping")
             try:
                 res, exc = self._run_item(item, me)
+            except _WorkerDied:
+                # CPython: an exception while the worker fetches its call item kills the worker process
+                self._crash(item, injected=False)
+                return
             finally:
                 self._inflight -= 1
             sim.event("task_end", f"{self.pid_}:{f.fid}:w{widx}")
             f._finish(res, exc)
             sim.yield_point("task_end")
 
-    def _crash(self, item):
+    def _crash(self, item, injected=True):
         sim = self._sim
         self._broken = True
-        sim.count("fault_fired:worker_crash")
-        sim.event("fault", "worker_crash")
+        sim.count("fault_fired:worker_crash" if injected else "worker_died_unpickling")
+        sim.event("fault" if injected else "worker_died", "worker_crash")
         err = BrokenProcessPool("A process in the process pool was terminated abruptly while the future was "
                                 "running or pending.")
         item.future._finish(exception=err)
@@ -325,7 +350,12 @@ class SimProcessPoolExecutor(_SimExecutorBase):
         if isinstance(item.blob, BaseException):
             return None, item.blob
         try:
-            fn, args, kwargs = pickle.loads(item.blob)
+            import io
+            fn, args, kwargs = _ForkAwareUnpickler(io.BytesIO(item.blob), self._sim, me.ctx).load()
+        except AttributeError as e:
+            if "defined after this worker" in str(e):
+                raise _WorkerDied() from e
+            return None, e
         except BaseException as e:
             return None, e
         try:
@@ -356,7 +386,7 @@ def _origin(e):
         if "/pyvolutionary/" in fn:
             last = (fn.split("/pyvolutionary/", 1)[1], tb.tb_frame.f_code.co_name, tb.tb_lineno)
         tb = tb.tb_next
-    return last if last is not None else o
+    return o if o is not None else last          # an exception handed up from a nested worker keeps its inner origin
 
 
 def sim_as_completed(fs, timeout=None):
